@@ -756,6 +756,13 @@ func templateChunksProg(plan *Tape) *Prog {
 		top.Outs = append(top.Outs, Field{"side", intT})
 		top.Ret = append(top.Ret, Bind{"side", ref("WIDE_C", "total"), false})
 	}
+	if plan.Draw(2) == 0 {
+		// a splitting stage that returns nothing (its chunks and its join are run for
+		// their effects): nothing but the states of its jobs says when it is done
+		p.Stages = append(p.Stages, &StageDef{Name: "WIDE_D", SrcKind: "comp", Ins: []Field{{"n", intT}},
+			Split: true, ChunkIns: []Field{{"c0", intT}}})
+		top.Calls = append(top.Calls, &CallDef{Callee: "WIDE_D", Id: "WIDE_D", Binds: []Bind{{"n", ref("WIDE_A", "total"), false}}})
+	}
 	p.Pipelines = []*PipelineDef{top}
 	p.Top = &CallDef{Callee: "TOPW", Id: "TOPW", Binds: []Bind{{"n", &Expr{Kind: ELit, Val: int64(plan.Draw(1000)), T: intT}, false}}}
 	return p
